@@ -86,3 +86,177 @@ theorem inv_run (cfg : Cfg) (hc : cfg.closeOnWriteErr = true) (sched : List Tid)
   | cons t ts ih => intro s h; exact ih _ (inv_step cfg hc s t h)
 
 end Model.Do
+
+namespace Model.Do
+
+/-! ### bounded progress once the context is dead -/
+
+def senderLen (s : St) : Nat :=
+  match s.sender with
+  | none => 0
+  | some acts => acts.length + 1
+
+theorem stepSender_ctxDead (cfg : Cfg) (s : St) (h : s.ctxDead = true) : (stepSender cfg s).ctxDead = true := by
+  unfold stepSender
+  split
+  · exact h
+  · exact h
+  · exact h
+  · simp [h, failSender]
+  · split
+    · simp [failSender]
+    · exact h
+
+/-- with a dead context every sender step shortens what is left of it -/
+theorem stepSender_progress (cfg : Cfg) (s : St) (h : s.ctxDead = true) (hp : 0 < senderLen s) :
+    senderLen (stepSender cfg s) < senderLen s := by
+  unfold senderLen at hp ⊢
+  unfold stepSender
+  cases hs : s.sender with
+  | none => simp [hs] at hp
+  | some acts =>
+    cases acts with
+    | nil => simp
+    | cons a rest =>
+      cases a with
+      | encode n => simp
+      | flush f => simp [h, failSender]
+      | callback fails => by_cases hf : fails = true <;> simp [hf, failSender]
+
+theorem stepSender_other (cfg : Cfg) (s : St) :
+    (stepSender cfg s).recv = s.recv ∧ (stepSender cfg s).watchDone = s.watchDone ∧ (stepSender cfg s).done = s.done := by
+  unfold stepSender
+  split
+  · simp
+  · simp
+  · simp
+  · split
+    · simp [failSender]
+    · split
+      · simp [failSender]
+      · split <;> simp [failSender]
+  · split <;> simp [failSender]
+
+theorem run_cons (cfg : Cfg) (s : St) (t : Tid) (ts : List Tid) : run cfg s (t :: ts) = run cfg (step cfg s t) ts := rfl
+theorem run_nil (cfg : Cfg) (s : St) : run cfg s [] = s := rfl
+theorem run_append (cfg : Cfg) (s : St) (a b : List Tid) : run cfg s (a ++ b) = run cfg (run cfg s a) b := by
+  simp [run, List.foldl_append]
+
+/-- enough sender steps finish the sender -/
+theorem sender_drains (cfg : Cfg) : ∀ (n : Nat) (s : St), s.ctxDead = true → senderLen s ≤ n →
+    (run cfg s (List.replicate n .sender)).sender = none ∧
+    (run cfg s (List.replicate n .sender)).ctxDead = true ∧
+    (run cfg s (List.replicate n .sender)).recv = s.recv ∧
+    (run cfg s (List.replicate n .sender)).watchDone = s.watchDone ∧
+    (run cfg s (List.replicate n .sender)).done = s.done := by
+  intro n
+  induction n with
+  | zero =>
+    intro s h hl
+    simp only [List.replicate, run_nil]
+    refine ⟨?_, h, trivial, trivial, trivial⟩
+    unfold senderLen at hl
+    cases hs : s.sender with
+    | none => rfl
+    | some acts => simp [hs] at hl
+  | succ n ih =>
+    intro s h hl
+    simp only [List.replicate, run_cons, step]
+    have hd := stepSender_ctxDead cfg s h
+    have ho := stepSender_other cfg s
+    by_cases hp : 0 < senderLen s
+    · have := stepSender_progress cfg s h hp
+      obtain ⟨a, b, c, d, e⟩ := ih (stepSender cfg s) hd (by omega)
+      exact ⟨a, b, by rw [c, ho.1], by rw [d, ho.2.1], by rw [e, ho.2.2]⟩
+    · have hz : senderLen s = 0 := by omega
+      have hnone : s.sender = none := by
+        unfold senderLen at hz
+        cases hs : s.sender with
+        | none => rfl
+        | some acts => simp [hs] at hz
+      have hsame : stepSender cfg s = s := by unfold stepSender; simp [hnone]
+      rw [hsame]
+      exact ih s h (by omega)
+
+/-- once the receive loop has left its loop it has signalled the cancel-watch -/
+def Left (s : St) : Prop := isRunning s.recv = false → s.done = true
+
+theorem left_init (acts : List SendAct) (pkts : List SrvPkt) : Left (init acts pkts) := by
+  simp [Left, init, isRunning]
+
+theorem left_step (cfg : Cfg) (s : St) (t : Tid) (h : Left s) : Left (step cfg s t) := by
+  cases t with
+  | sender =>
+    have ho := stepSender_other cfg s
+    intro hr
+    rw [step, ho.2.2]
+    rw [step, ho.1] at hr
+    exact h hr
+  | receiver =>
+    simp only [step]
+    unfold stepReceiver
+    split
+    · exact h
+    · rename_i hr; intro _; exact h (by simp [hr, isRunning])
+    · split
+      · intro _; rfl
+      · split
+        · intro _; rfl
+        · split
+          · rename_i heq; intro h2; simp [heq, isRunning] at h2
+          · intro h2; simp [isRunning] at h2
+          · intro _; rfl
+          · intro _; rfl
+          · intro _; rfl
+          · intro _; rfl
+  | watch =>
+    simp only [step]
+    unfold stepWatch
+    split
+    · exact h
+    · split
+      · exact h
+      · split <;> exact h
+  | env => exact h
+
+theorem left_run (cfg : Cfg) (sched : List Tid) : ∀ s, Left s → Left (run cfg s sched) := by
+  induction sched with
+  | nil => intro s h; exact h
+  | cons t ts ih => intro s h; exact ih _ (left_step cfg s t h)
+
+/-- the schedule that lets everything return once the context is dead -/
+def drain (n : Nat) : List Tid := List.replicate n .sender ++ [.receiver, .receiver, .watch]
+
+/-- **Bounded return**: from every state in which the shared context is dead (a goroutine failed,
+or the caller cancelled), letting the sender take as many steps as it has actions left, the
+receiver two and the cancel-watch one makes all three goroutines return. -/
+theorem returns_after_failure (cfg : Cfg) (s : St) (hl : Left s) (hc : s.ctxDead = true) (n : Nat)
+    (hn : senderLen s ≤ n) : (run cfg s (drain n)).allDone = true := by
+  unfold drain
+  rw [run_append]
+  obtain ⟨h1, h2, h3, h4, h5⟩ := sender_drains cfg n s hc hn
+  generalize run cfg s (List.replicate n Tid.sender) = s1 at *
+  have hl1 : Left s1 := by intro hr; rw [h5]; rw [h3] at hr; exact hl hr
+  simp only [run_cons, run_nil, step]
+  -- two receiver steps
+  have hrecv : (stepReceiver (stepReceiver s1)).recv = .finished ∧ (stepReceiver (stepReceiver s1)).done = true ∧
+      (stepReceiver (stepReceiver s1)).sender = none ∧ (stepReceiver (stepReceiver s1)).watchDone = s1.watchDone := by
+    cases hr : s1.recv with
+    | finished =>
+      have e : stepReceiver s1 = s1 := by unfold stepReceiver; simp [hr]
+      rw [e, e]
+      exact ⟨hr, hl1 (by simp [hr, isRunning]), h1, rfl⟩
+    | returning =>
+      have hd := hl1 (by simp [hr, isRunning])
+      simp [stepReceiver, hr, hd, h1]
+    | running pkts =>
+      simp [stepReceiver, hr, h2, h1]
+  obtain ⟨r1, r2, r3, r4⟩ := hrecv
+  generalize stepReceiver (stepReceiver s1) = s2 at *
+  unfold St.allDone stepWatch
+  by_cases hw : s2.watchDone = true
+  · simp [hw, r1, r3]
+  · simp only [hw, Bool.false_eq_true, ↓reduceIte, r2, Bool.not_true]
+    split <;> simp [r1, r3]
+
+end Model.Do
